@@ -68,6 +68,8 @@ RECSTART_R = {"<start>": ["a<start>", "b"]}
 RECSTART_L = {"<start>": ["<start>a", "b", ""]}
 RECSTART_M = {"<start>": ["(<start>)<start>", "<A>"], "<A>": ["x", ""]}
 
+# terminals beyond ASCII: Latin-1 (below \u{100}, which z3's as_string() decodes) and beyond (which it leaves escaped)
+UNI = {"<start>": ["<S>"], "<S>": ["<A>", "<A><S>"], "<A>": ["\u00e4", "a", "\u20ac", "\u0100"]}
 QUOTED = {"<start>": ["<item>", "<item>,<start>"], "<item>": ["\"<var>\"", "(<var>)", "'<var>'"], "<var>": ["a", "b", "\\"]}
 
 # a nullable and a non-nullable nonterminal with an identical alternative; an expansion naming one nonterminal twice
@@ -92,7 +94,7 @@ GRAMMARS = {
     "ASSGN": ASSGN, "ASSGN2": ASSGN2, "XMLISH": XMLISH, "NUM": NUM, "NULLABLE": NULLABLE,
     "AMBIG": AMBIG, "LEFTREC": LEFTREC, "RIGHTREC": RIGHTREC, "MULTICHAR": MULTICHAR,
     "CSVISH": CSVISH, "TWOSTART": TWOSTART, "LENGTHS": LENGTHS,
-    "QUOTED": QUOTED, "RECSTART_R": RECSTART_R, "RECSTART_L": RECSTART_L, "RECSTART_M": RECSTART_M,
+    "QUOTED": QUOTED, "UNI": UNI, "RECSTART_R": RECSTART_R, "RECSTART_L": RECSTART_L, "RECSTART_M": RECSTART_M,
 }
 
 
@@ -229,6 +231,19 @@ def hand_formulas(name):
         add("mexpr-quote", EX("<item>", "i", SMT(A("=", V("i"), S('"b"'))), mexpr=M(MCH('"'), MNT("<var>"), MCH('"'))))
         add("plain", FA("<var>", "v", NOT(lit("v", "\\"))))
         add("plain", EX("<item>", "i", SMT(A("str.contains", V("i"), S('"')))))
+    if name == "UNI":
+        for ch in ("\u00e4", "\u20ac", "\u0100"):
+            add("unicode-literal", EX("<A>", "x", lit("x", ch)))
+            add("unicode-literal", FA("<A>", "x", NOT(lit("x", ch))))
+            add("unicode-literal", EX("<A>", "x", SMT(A("=", A("str.to_code", V("x")), I(ord(ch))))))
+            add("unicode-literal", FA("<start>", "s", NOT(SMT(A("str.contains", V("s"), S(ch))))))
+            add("unicode-mexpr", EX("<S>", "s", lit("r", "a"), mexpr=M(MCH(ch), MNT("<S>", "r"))))
+            add("unicode-mexpr", FA("<S>", "s", NOT(lit("x", ch)), mexpr=M(MNT("<A>", "x"), MOPT(MNT("<S>")))))
+        add("unicode-literal", FA("<A>", "x", SMT(A("=", A("str.len", V("x")), I(1)))))
+        add("unicode-literal", EX("<start>", "s", lit("s", "\u20aca\u00e4")))
+        add("unicode-literal", EX("<A>", "x", EX("<A>", "y", AND(PRED("before", "x", "y"), lit("x", "\u20ac"), lit("y", "\u0100")))))
+        add("unicode-literal", FA("<A>", "x", SMT(A("str.in_re", V("x"), A("re.union", A("str.to_re", S("a")), A("str.to_re", S("\u20ac")))))))
+        add("unicode-literal", FA("<A>", "x", SMT(A("str.<=", S("\u00e4"), V("x")))))
     if name == "CSVISH":
         add("count", FA("<row>", "r", EX("<row>", "q", OR(PRED("same_position", "r", "q"), PRED("inside", "r", "q"), PRED("inside", "q", "r"), TRUE))))
         add("numeric-exists-count", EXI("n", FA("<row>", "r", OR(COUNT("r", "<field>", "n"), EX("<row>", "q", AND(PRED("inside", "r", "q"), NOT(PRED("same_position", "r", "q"))))))))
